@@ -1490,6 +1490,16 @@ class TLSConnection(TLSRecordLayer):
                 delegated_credential = cert_ext.delegated_credential
                 publicKey = delegated_credential.cred.pub_key
                 signature_scheme = delegated_credential.cred.dc_cert_verify_algorithm
+            else:
+                sig_algs_ext = clientHello.getExtension(
+                    ExtensionType.signature_algorithms)
+                if not sig_algs_ext or \
+                        signature_scheme not in sig_algs_ext.sigalgs:
+                    for result in self._sendError(
+                            AlertDescription.illegal_parameter,
+                            "Server selected signature algorithm we didn't "
+                            "advertise"):
+                        yield result
 
             if signature_scheme in (SignatureScheme.ed25519,
                                     SignatureScheme.ed448,
